@@ -322,7 +322,7 @@ fn case(ctx: &mut Ctx, rng: &mut Rng, exhaustive_idx: Option<usize>) {
 }
 
 pub fn run(ctx: &mut Ctx) {
-    let n = ctx.by_tier(6_000u64, 400_000);
+    let n = ctx.by_tier(18_000u64, 400_000);
     ctx.random_cases("combo", n, |c, r| case(c, r, None));
     let _ = <i64 as Elem>::math_symbol;
 }
